@@ -272,7 +272,7 @@ class Report:
     def _sample(o):
         keep = ("key", "engine", "functions", "shape", "symbolic", "bounds", "stubs", "verdict", "reason",
                 "solver", "solver_s", "queries", "model", "replay", "vacuity", "detail", "known_what", "cross",
-                "native_replay", "replay_note")
+                "native_replay", "replay_note", "end_to_end", "twin")
         return {k: o[k] for k in keep if k in o}
 
     def write_replay(self, o):
